@@ -123,3 +123,31 @@ MUTANTS += [
     dict(id="c09-string-validation-skips-last", property="C09", edits=[(P, "                for piece_index, piece in enumerate(pieces):\n", "                for piece_index, piece in enumerate(pieces[:-1]):\n")]),
     dict(id="c09-suffix-any-instead-of-all", property="C09", edits=[(P, "if any(not has_structure(x) for x in dummy_leaves):", "if dummy_leaves and all(not has_structure(x) for x in dummy_leaves):")]),
 ]
+
+MUTANTS += [
+    # ---- C14
+    dict(id="c14-modifier-loop-stops-after-first", property="C14", edits=[(A, """                    broadcastable = True
+                    elem = elem[1:]
+""", """                    broadcastable = True
+                    elem = elem[1:]
+                    break
+""")]),
+    dict(id="c14-anon-fixed-accepted", property="C14", edits=[(A, """            if anonymous:
+                raise ValueError(
+                    "Cannot have a fixed axis be anonymous, e.g. `_4` is not allowed."
+                )""", """            if anonymous and False:
+                raise ValueError(
+                    "Cannot have a fixed axis be anonymous, e.g. `_4` is not allowed."
+                )""")]),
+    dict(id="c14-comma-check-dropped", property="C14", edits=[(A, """        if "," in elem and "(" not in elem:""", """        if False:""")]),
+    dict(id="c14-nonstring-attributeerror", property="C14", edits=[(A, """        if not isinstance(dim_str, str):
+            raise ValueError(
+                "Shape specification must be a string. Axes should be separated with "
+                "spaces."
+            )
+        dim_str = dim_str.strip()""", """        dim_str = dim_str.strip()""")]),
+    dict(id="c14-tree-after-star-ignored", property="C14", edits=[(A, """                    treepath = True
+                    elem = elem[1:]""", """                    treepath = not variadic
+                    elem = elem[1:]""")]),
+    dict(id="c14-split-not-strip", property="C14", edits=[(A, "for index, elem in enumerate(dim_str.split()):", "for index, elem in enumerate(dim_str.split(' ')):")]),
+]
